@@ -25,6 +25,7 @@ Monitors
 """
 import copy
 import itertools
+import json
 import os
 import random
 import shutil
@@ -307,7 +308,9 @@ def _rand_split(rng, levels, counter):
         if br[0] == "tuple":
             # a fill sequence given directly in a tuple would make Split take the whole tuple
             # for a fill sequence: it stands in a Sequence of its own there
-            br[1] = [["seq", [x]] if x[0] in ("fcseq", "frseq") else x for x in br[1]]
+            # (so does a nested Split whose branches are fill sequences: it is a fill element)
+            br[1] = [["seq", [x]] if x[0] in ("fcseq", "frseq") or
+                     (x[0] == "split" and '"acc"' in json.dumps(x)) else x for x in br[1]]
     if rng.random() < 0.3:
         # copy_buf concerns the buffer of run-time values; the static context is handed to
         # each branch as an independent copy whatever its value
